@@ -2,7 +2,7 @@
    sel R idx k = the component addressed by entry k of an index array (jnp.take semantics: negative entries
    wrap, repetitions allowed).  fwf1 = what the rank-one constructor establishes (Lambda = g v v'). *)
 From mathcomp Require Import all_ssreflect all_algebra.
-From GT Require Import Tensor DetExec LogDom Obj Factor Measure Pdf Cond Moments ExpLog EvalLemmas Spec C01_proofs PdfLemmas C04_proofs C12_proofs C14_proofs.
+From GT Require Import Tensor DetExec LogDom Obj Factor Measure Pdf Cond Moments ExpLog EvalLemmas Spec C01_proofs PdfLemmas C04_proofs C0809_proofs C12_proofs C14_proofs C07_proofs Extra_proofs.
 Import GRing.Theory Num.Theory.
 Local Open Scope ring_scope.
 
@@ -75,7 +75,30 @@ Theorem C12_slice_commutes_integrals idx (u : measure LS) k :
       forall i j, (i < uD u)%N -> (j < uD u)%N -> getS (prepare (uslice idx u)) k i j = getS (prepare u) s i j
     & log_mass (uslice idx u) k = log_mass u s].
 Proof. exact: slice_moments. Qed.
+
+(* slicing commutes with the joint and the marginal transformation: batch on the conditional (p_x single) and batch
+   on p_x (conditional single) *)
+Theorem C12_slice_commutes_joint_conditional idx (c : cond LS) (p : measure LS) k (z : vec F) :
+  pdf_ok p -> cond_ok c -> cDx c = uD p -> uR p = 1%N -> idx_ok (cR c) idx -> (k < size idx)%N ->
+  ueval (affine_joint (cslice idx c) p) k z = ueval (affine_joint c p) (sel (cR c) idx k) z.
+Proof. exact: slice_joint_cond. Qed.
+Theorem C12_slice_commutes_marginal_conditional idx (c : cond LS) (p : measure LS) k (y : vec F) :
+  pdf_ok p -> cond_ok c -> cDx c = uD p -> uR p = 1%N -> marg_pos c p -> idx_ok (cR c) idx -> (k < size idx)%N ->
+  ueval (affine_marginal (cslice idx c) p) k y = ueval (affine_marginal c p) (sel (cR c) idx k) y.
+Proof. exact: slice_marginal_cond. Qed.
+Theorem C12_slice_commutes_joint_prior idx (c : cond LS) (p : measure LS) k (z : vec F) :
+  pdf_ok p -> is_pdf (ucls p) -> cond_ok c -> cDx c = uD p -> cR c = 1%N -> idx_ok (uR p) idx -> (k < size idx)%N ->
+  ueval (affine_joint c (uslice idx p)) k z = ueval (affine_joint c p) (sel (uR p) idx k) z.
+Proof. exact: slice_joint_px. Qed.
+Theorem C12_slice_commutes_marginal_prior idx (c : cond LS) (p : measure LS) k (y : vec F) :
+  pdf_ok p -> is_pdf (ucls p) -> cond_ok c -> cDx c = uD p -> cR c = 1%N -> marg_pos c p -> idx_ok (uR p) idx -> (k < size idx)%N ->
+  ueval (affine_marginal c (uslice idx p)) k y = ueval (affine_marginal c p) (sel (uR p) idx k) y.
+Proof. exact: slice_marginal_px. Qed.
 End C12.
+Print Assumptions C12_slice_commutes_joint_conditional.
+Print Assumptions C12_slice_commutes_marginal_conditional.
+Print Assumptions C12_slice_commutes_joint_prior.
+Print Assumptions C12_slice_commutes_marginal_prior.
 Print Assumptions C12_take_semantics.
 Print Assumptions C12_slice_factor.
 Print Assumptions C12_slice_measure.
